@@ -11,6 +11,15 @@ def _subterms(e):
     return _subterms_list([e])
 
 
+def _free_consts(e):
+    out = set()
+    for s_ in _subterms_list([e]):
+        if z3.is_app(s_) and s_.num_args() == 0 and s_.decl().kind() == z3.Z3_OP_UNINTERPRETED: out.add(s_.decl().name())
+        elif z3.is_app(s_) and s_.num_args() > 0 and s_.decl().kind() == z3.Z3_OP_UNINTERPRETED and not s_.decl().name() in ('cos', 'sin', 'exp', 'log', 'sqrt', 'pow', 'acos', 'erf', 'floor', 'log10', 'pow10'):
+            out.add('f:' + s_.decl().name())
+    return out
+
+
 INTS = ('int', 'uint', 'long', 'ulong', 'char')
 RANGE = {'int': (-2 ** 31, 2 ** 31 - 1), 'uint': (0, 2 ** 32 - 1), 'long': (-2 ** 63, 2 ** 63 - 1), 'ulong': (0, 2 ** 64 - 1), 'char': (-128, 127)}
 
@@ -961,10 +970,16 @@ class Engine:
                 sorts.append(v.lens.sort()); a.append(v.lens)
             else: raise E2Error('spec function parameter type %s' % t)
         rs = {'int': z3.IntSort(), 'real': z3.RealSort(), 'bool': z3.BoolSort()}[sf.rtype]
-        f = self.uf('spec_' + n, *(sorts + [rs]))
+        ren = getattr(self, 'uf_rename', None)
+        tag = ''
+        if ren:      # a spec function that mentions a callback symbol is a different function for a different callback
+            tag = '@' + ','.join('%s=%s' % (k_, v_[0]) for k_, v_ in sorted(ren.items()))
+            for k_, v_ in sorted(ren.items()):
+                for x_ in v_[1]: sorts.append(z3.RealSort()); a.append(x_)
+        f = self.uf('spec_' + n + tag, *(sorts + [rs]))
         r = f(*a)
         # one unfolding at the call site
-        if sf.body is not None and self.depth < 5:
+        if sf.body is not None and self.depth < getattr(self, 'max_unfold', 5):
             self.depth += 1
             bound = {}
             for (t, pn), v in zip(sf.params, args): bound[pn] = v
@@ -1949,6 +1964,7 @@ class Verifier(Engine):
             if inv.engines and 'E2' not in inv.engines: continue
             self.check_clause(inv, st, 'loop%d.invariant_base' % L.ordinal)
         mod = self.modset(L.body + L.step, {})
+        sum_terms = self.loop_summaries(L, ls, st, mod) if ls.summaries else []
         h = st.clone()
         self.havoc_mod(mod, h)
         for inv in ls.invariants:
@@ -1973,17 +1989,81 @@ class Verifier(Engine):
                         self.oblige(q, z3.And(d1 < dec0, dec0 >= 0), 'loop%d.decreases' % L.ordinal, 'variant %s decreases and is bounded below' % ls.decreases.text)
             elif status == 'break':
                 p.scope = L.scope
+                for vn, term in sum_terms: p.assume(self.sv(SP.X('name', name=vn), p) == term)
                 for cl in ls.on_exit: self.check_clause(cl, p, 'loop%d.on_exit' % L.ordinal)
                 p.scope = saved_scope; p.loop_old = saved_lo
                 out.append((p, 'normal', None))
             else:
                 out.append((p, status, rv))
         if self.feasible(ex, z3.BoolVal(True)):
+            if sum_terms:
+                ex.scope = L.scope
+                for vn, term in sum_terms: ex.assume(self.sv(SP.X('name', name=vn), ex) == term)
+                ex.scope = saved_scope
             if ls.on_exit:
                 ex.scope = L.scope
                 for cl in ls.on_exit: self.check_clause(cl, ex, 'loop%d.on_exit' % L.ordinal)
                 ex.scope = saved_scope
             out.append((ex, 'normal', None))
+        return out
+
+    def loop_summaries(self, L, ls, st, mod):
+        """`summary VAR = UF(args)`: the loop is a deterministic, closed computation, so the value of VAR at its exit is a function
+        of the values that the variables it reads have at its entry.  Accepted only if (1) the loop calls nothing but libm
+        primitives (no callback, no generator, no user function, no static or namespace-scope variable), and (2) every
+        variable it may read before writing it has, at loop entry, a symbolic value built from the symbols of the arguments'
+        values only.  Then UF(args at entry) is a sound name for that value, in every run of this function."""
+        def fail(msg): raise E2Error('%sloop%d: summary rejected: %s' % (self.prefix, L.ordinal, msg))
+        reads = set(); written = set()
+        def rd_expr(e):
+            if not isinstance(e, IR.E): return
+            if e.k == 'var':
+                if e.name not in written: reads.add(e.name)
+                return
+            if e.k == 'call':
+                if not (e.kind == 'prim' and (e.fn in IR.LIBM or e.fn in ('iabs', 'std::min', 'std::max'))): fail('call of %s inside the loop' % getattr(e, 'fn', '?'))
+            if e.k in ('lambda', 'recctor', 'seqctor'): fail('%s inside the loop' % e.k)
+            for v in e.__dict__.values():
+                if isinstance(v, IR.E): rd_expr(v)
+                elif isinstance(v, list):
+                    for a in v: rd_expr(a)
+        def rd_stmts(ss, toplevel):
+            for s_ in ss:
+                k = s_.k
+                if k == 'decl':
+                    if getattr(s_, 'static', False): fail('static local')
+                    if s_.init is not None: rd_expr(s_.init)
+                    if toplevel: written.add(s_.name)
+                elif k == 'assign':
+                    rd_expr(s_.rhs)
+                    if s_.lhs.k == 'var':
+                        if toplevel: written.add(s_.lhs.name)
+                    else: rd_expr(s_.lhs)
+                elif k == 'if':
+                    rd_expr(s_.cond); rd_stmts(s_.then, False); rd_stmts(s_.els, False)
+                elif k == 'block': rd_stmts(s_.body, toplevel)
+                elif k == 'loop':
+                    rd_expr(getattr(s_, 'cond', None)); rd_stmts(getattr(s_, 'init', []) or [], False); rd_stmts(s_.body, False); rd_stmts(s_.step, False)
+                elif k in ('break', 'continue'): pass
+                elif k == 'callstmt': rd_expr(s_.call)
+                elif k == 'return': fail('return inside the loop')
+                elif k == 'exit': fail('exit inside the loop')
+                else: fail('statement kind %s' % k)
+        rd_expr(L.cond)          # the condition is evaluated before the body writes anything
+        rd_stmts(L.body, True); rd_stmts(L.step, False)
+        out = []
+        for vn, ufn, argx in ls.summaries:
+            avals = [self.to_real(self.sv(a, st)) for a in argx]
+            allowed = set()
+            for a in avals: allowed |= set(k_ for k_ in _free_consts(a))
+            for rn in sorted(reads):
+                if rn.startswith('$') or rn.startswith('::'): fail('reads captured/namespace variable %s' % rn)
+                if rn not in st.env: continue          # declared inside the loop body
+                v = st.env[rn]
+                if isinstance(v, (Seq, Rec, Fun, Str, PySeq, Iter)) or v is None: fail('reads the non-scalar %s' % rn)
+                extra = set(_free_consts(v)) - allowed
+                if extra: fail('the entry value of %s is not determined by the arguments of %s (depends on %s)' % (rn, ufn, sorted(extra)[:3]))
+            out.append((vn, self.uf(ufn, *([z3.RealSort()] * (len(avals) + 1)))(*avals)))
         return out
 
     def unroll_loop(self, L, st, n):
@@ -2018,6 +2098,7 @@ class Verifier(Engine):
         self.view = key.split('~')[1] if '~' in key else None
         key = key.split('~')[0]
         self.curkey = key
+        self.max_unfold = int(fs.options.get('unfold', 5))
         f = self.func(key)
         modes = ['accept', 'reject'] if fs.exits_iff is not None else ['accept']
         info = {'function': f.qual, 'mangled': key, 'modes': {}, 'rules': f.rules}
@@ -2140,6 +2221,7 @@ class Verifier(Engine):
         if getattr(lm, 'is_axiom', False): raise E2Error('%s is an axiom, not a lemma' % name)
         self.prefix = 'E2:lemma:%s:' % name
         self.mode = 'accept'; self.cur = None
+        self.max_unfold = int(lm.options.get('unfold', 5))
         st = State()
         for t, n in lm.params:
             tt = {'real': 'double', 'int': 'int', 'nat': 'int', 'bool': 'bool', 'seq': 'seq<double>', 'seq2': 'seq<seq<double>>'}.get(t, t)
